@@ -31,9 +31,15 @@ def md_of(choice, k):
             "mixed": [3 * k + 2, 3 * k]}[choice]
 
 
-def run_trace(name, prog, ops, mode):
+EXC_TYPES = {"Injected": None, "StopIteration": StopIteration, "KeyError": KeyError, "ValueError": ValueError,
+             "GeneratorExit": None, "AttributeError": AttributeError}
+
+
+def run_trace(name, prog, ops, mode, exc="Injected"):
     """ops: list of ("emit", entry, val, mdchoice, failAt) | ("flush", node, failAt)"""
     B.Obs.reset()
+    B.Plan.exc = EXC_TYPES.get(exc)
+    injected = (B.Plan.exc or B.Injected,)
     cbs = B.Obs.cbs
     tags = B.make_tags(NTAGS, cbs)
     skw = {"asynchronous": True} if mode == "async" else {}
@@ -57,11 +63,13 @@ def run_trace(name, prog, ops, mode):
                         if not fut.done():
                             raise RuntimeError("emit awaitable pending in a synchronous program: %s" % name)
                         if fut.exception() is not None:
-                            if not isinstance(fut.exception(), B.Injected):
+                            if not isinstance(fut.exception(), injected) and not (fail_at and isinstance(fut.exception(), RuntimeError)):
                                 raise fut.exception()
                             raised = True
-                except B.Injected:
-                    raised = True
+                except injected:
+                    raised = bool(fail_at)
+                    if not fail_at:
+                        raise
                 except Exception as e:      # the real code blew up on a well-typed program
                     raised = True
                     crash = repr(e)[:200]
@@ -71,7 +79,7 @@ def run_trace(name, prog, ops, mode):
                 B.Plan.reset(fail_at)
                 try:
                     built.nodes[n].flush()
-                except B.Injected:
+                except injected:
                     raised = True
                 except Exception as e:
                     raised = True
@@ -92,7 +100,7 @@ def run_trace(name, prog, ops, mode):
     finally:
         B.Obs.enabled = False
         B.destroy(built)
-    return {"name": name, "prog": P.prog_json(prog), "steps": steps}
+    return {"name": name, "prog": P.prog_json(prog), "steps": steps, "exc": exc}
 
 
 def entries(prog):
@@ -210,8 +218,13 @@ def main():
         if name.startswith("chain:") and name.count(">") >= 1 and a.what == "plain":
             # longer chains: thin the exhaustive part
             plans = plans[::3] if a.tier == "quick" else plans
-        for ops in plans:
-            traces.append(run_trace(name, prog, ops, a.mode))
+        for pi, ops in enumerate(plans):
+            exc = "Injected"
+            if a.what == "fail" and not any(nd["kind"] == "partition" for nd in prog):
+                # any exception type must reach the emitter (a generator-based coroutine turns StopIteration into
+                # RuntimeError, so programs with partition keep the plain type)
+                exc = ["Injected", "StopIteration", "KeyError", "ValueError", "AttributeError"][pi % 5]
+            traces.append(run_trace(name, prog, ops, a.mode, exc))
     if a.mutant == "corrupt_log":
         for t in traces:
             d = t["steps"][-1]["dlog"]
